@@ -87,8 +87,6 @@ def unsupported(kind, process, pto, tmc=0, scheme="ZM-VFNS"):
         return "polarised N3LO not implemented"
     if kind in ("gL", "g4") and tmc != 0:
         return "TMC for gL/g4 not implemented"
-    if kind in ("gL", "g4") and scheme != "ZM-VFNS":
-        return "massive gL/g4 only partly implemented"
     return None
 
 
